@@ -2,6 +2,8 @@ import Casket.Model.VHost
 import Casket.Spec.VHost
 import Casket.Model.VHostStack
 import Casket.Spec.VHostStack
+import Casket.Model.VHostAuto
+import Casket.Spec.VHostAuto
 import Driver.Proto
 /-
 Streams of C01.
@@ -124,7 +126,80 @@ def stackJudge (f : List String) (out : String) : String :=
   | some (as, port, r), some o => Casket.VHostStackSpec.verdict as port r o
   | _, _ => "bad:unparsable:" ++ out
 
+/-
+  c01.auto  blocks  lbind  lport  hosthex  pathhex  protoMajor
+     blocks = comma list of <addrhex>:<bindhex>:<tls>, each its own server block (address, `bind`, `tls`), in order;
+              tls = none | off | email | self, then optional +nr (no_redirect)
+     lbind/lport = the listener the request is sent to (bind value in hex, port as text)
+     out   = load:<class> | directive-error | makeservers-error | nolistener
+           | served TAB <declared> TAB <members> TAB (site TAB <position in members> TAB <path_prefix hex> | notfound TAB <status>)
+             members = comma list of <idx>:<Addr.Original hex>:<Addr.Host hex>, idx = position in the final config list
+-/
+open Casket.VHostAuto in
+def parseAutoBlock (s : String) : Option Block :=
+  match s.splitOn ":" with
+  | [a, b, t] => do
+    let (base, nr) ← match t with
+      | "none" => some (Casket.AutoHTTPS.TLSBase.none, false)
+      | "off" => some (.off, false)
+      | "email" => some (.email, false)
+      | "email+nr" => some (.email, true)
+      | "self" => some (.selfSigned, false)
+      | "self+nr" => some (.selfSigned, true)
+      | _ => none
+    pure { addr := ← bytes8 a, bind := ← bytes8 b, tls := { base := base, noRedirect := nr } }
+  | _ => none
+
+open Casket.VHostAuto in
+def parseAutoCase : List String → Option (List Block × List UInt8 × List UInt8 × Req)
+  | [bs, lb, lp, h, p, pm] => do
+    let blocks ← if bs = "" then some [] else (bs.splitOn ",").mapM parseAutoBlock
+    pure (blocks, ← bytes8 lb, lp.toUTF8.toList, { host := ← bytes h, path := ← bytes p, protoMajor := ← pm.toNat? })
+  | _ => none
+
+open Casket.VHostAuto in
+def showMember (m : Member) : String := s!"{m.idx}:{hexB m.key}:{hexB m.addrHost}"
+
+open Casket.VHostAuto in
+def parseMember (s : String) : Option Member :=
+  match s.splitOn ":" with
+  | [i, k, h] => do pure { idx := ← i.toNat?, key := ← bytes k, addrHost := ← bytes h }
+  | _ => none
+
+open Casket.VHostAuto in
+def showAuto : AutoOutcome → String
+  | .loadError e => showErr e
+  | .directiveError => "directive-error"
+  | .makeServersError => "makeservers-error"
+  | .noListener => "nolistener"
+  | .served n ms o => s!"served\t{n}\t{",".intercalate (ms.map showMember)}\t{showOutcome o}"
+
+open Casket.VHostAuto in
+def parseAuto (s : String) : Option AutoOutcome :=
+  match s.splitOn "\t" with
+  | ["directive-error"] => some .directiveError
+  | ["makeservers-error"] => some .makeServersError
+  | ["nolistener"] => some .noListener
+  | "served" :: n :: ms :: rest => do
+    let members ← if ms = "" then some [] else (ms.splitOn ",").mapM parseMember
+    pure (.served (← n.toNat?) members (← parseOutcome ("\t".intercalate rest)))
+  | [e] => match parseStack e with
+    | some (.loadError x) => some (.loadError x)
+    | _ => none
+  | _ => none
+
+def autoModel (f : List String) : String :=
+  match parseAutoCase f with
+  | none => "bad-case"
+  | some (bs, lb, lp, r) => showAuto (Casket.VHostAuto.autoRoute bs lb lp r)
+
+def autoJudge (f : List String) (out : String) : String :=
+  match parseAutoCase f, parseAuto out with
+  | some (bs, _, _, r), some o => Casket.VHostAutoSpec.verdict bs r o
+  | _, _ => "bad:unparsable:" ++ out
+
 def streams : List Driver.Stream := [
+  { name := "c01.auto", model := autoModel, judge := autoJudge },
   { name := "c01.stack", model := stackModel, judge := stackJudge },
   { name := "c01.route", model := routeModel, judge := routeJudge },
   { name := "c01.hostport", model := hostportModel, judge := fun _ _ => "ok" },
